@@ -52,12 +52,22 @@ func Mv(r *Root, src, dst string) error {
 		return err
 	}
 
+	// A directory cannot be moved into itself or below itself: the entry
+	// would be added inside the sub-tree that the final Unlink removes.
+	srcAsDir, _ := srcObj.(*Directory)
+	if srcAsDir != nil && isOrIsBelow(dstDir, srcAsDir) {
+		return fmt.Errorf("cannot move %s into itself", src)
+	}
+
 	fsn, err := dstDir.Child(dstFname)
 	if err == nil {
 		switch n := fsn.(type) {
 		case *File:
 			_ = dstDir.Unlink(dstFname)
 		case *Directory:
+			if srcAsDir != nil && isOrIsBelow(n, srcAsDir) {
+				return fmt.Errorf("cannot move %s into itself", src)
+			}
 			dstDir = n
 			dstFname = srcFname
 		default:
@@ -77,6 +87,21 @@ func Mv(r *Root, src, dst string) error {
 	}
 
 	return srcDir.Unlink(srcFname)
+}
+
+// isOrIsBelow reports whether d is anc or one of its descendants.
+func isOrIsBelow(d, anc *Directory) bool {
+	for cur := d; cur != nil; {
+		if cur == anc {
+			return true
+		}
+		parent, ok := cur.parent.(*Directory)
+		if !ok {
+			return false
+		}
+		cur = parent
+	}
+	return false
 }
 
 func lookupDir(r *Root, path string) (*Directory, error) {
